@@ -2,6 +2,7 @@ package main
 
 import (
 	"go/token"
+	"go/types"
 	"strings"
 
 	"golang.org/x/tools/go/ssa"
@@ -167,6 +168,33 @@ func c10HardCert(c *Ctx, m *shimModel) {
 			}
 		}
 	}
+	// success means: already present, or inserted on this path
+	var inserts []ssa.Instruction
+	for _, a := range w.FieldAccesses(m.Server, m.fCerts) {
+		if a.Fn == fn && a.Kind == "mapwrite" {
+			inserts = append(inserts, a.Instr)
+		}
+	}
+	for _, r := range w.MayBeNilReturns(fn) {
+		if fn.Recover != nil && r.Block() == fn.Recover {
+			continue
+		}
+		present := f.Any(r.Block(), func(l Lit) bool {
+			ex, ok := l.V.(*ssa.Extract)
+			if !ok || !l.Pol || ex.Index != 1 {
+				return false
+			}
+			lk, ok := ex.Tuple.(*ssa.Lookup)
+			return ok && m.isLoadOfField(lk.X, m.fCerts)
+		})
+		inserted := false
+		for _, in := range inserts {
+			if InstrDominates(in, r) {
+				inserted = true
+			}
+		}
+		c.Check(present || inserted, "R1.hardcert", "AddHardCert|success means held", w.Pos(r.Pos()), "already present or inserted on this path", "AddHardCert can report success although the certificate is neither already held nor inserted: it will not be listed or usable")
+	}
 	c.Floor("R1.hardcert", nPresent, 1, "already-present return")
 	c.Floor("R1.hardcert", nAbsent, 1, "key-not-found return")
 }
@@ -298,12 +326,12 @@ func exprList(w *World, vs []ssa.Value) string {
 }
 
 // c10Framing: both copies of the framed read allocate only under length <= bound; write refuses longer data.
-func c10Framing(c *Ctx) { framingRules(c, "R3.framing") }
+func c10Framing(c *Ctx) { framingRules(c, "R3.framing", []string{shimPkg}) }
 
-func framingRules(c *Ctx, rule string) {
+func framingRules(c *Ctx, rule string, pkgs []string) {
 	w := c.w
 	bounds := map[string]int64{}
-	for _, pkg := range []string{shimPkg, yubiPkg} {
+	for _, pkg := range pkgs {
 		rd, wr := w.Func(pkg, "read"), w.Func(pkg, "write")
 		if rd == nil || wr == nil {
 			c.Unresolved(rule, "framed read/write helpers of "+pkg)
@@ -361,6 +389,23 @@ func framingRules(c *Ctx, rule string) {
 			}
 		}
 		c.Floor(rule, nAlloc, 1, "frame buffer allocation in "+pkg+".read")
+		nRF := 0
+		for _, call := range callsTo(rd, "io.ReadFull") {
+			nRF++
+			c.Check(w.Expr(call.Common().Args[0]) == "p0", rule, pkg+".read|reads exactly from the connection", w.Pos(call.Pos()), "io.ReadFull(c, ...)", "the frame is read through something other than the connection itself (a per-call buffered reader loses the bytes it read ahead): "+w.Short(call.Common().Args[0]))
+		}
+		c.Check(nRF == 2, rule, pkg+".read|prefix and body read with io.ReadFull", w.FnPos(rd), "two io.ReadFull calls", "expected two io.ReadFull calls (length prefix, body), found "+itoa(nRF))
+		for _, call := range callsIn(rd) {
+			n := calleeName(call)
+			if n == "io.ReadFull" || n == "fmt.Errorf" || n == "errors.New" || strings.HasPrefix(n, "builtin:") || strings.HasPrefix(n, "(encoding/binary.") {
+				continue
+			}
+			for _, a := range call.Common().Args {
+				if w.Expr(a) == "p0" {
+					c.Bad(rule, pkg+".read|connection handed to "+shortName(n), w.Pos(call.Pos()), "the connection is handed to "+shortName(n)+" inside the framed read: bytes beyond the frame may be consumed")
+				}
+			}
+		}
 		// write: every Write call has the fact not (len(data) > C)
 		wf := w.Facts(wr)
 		nW := 0
@@ -379,8 +424,20 @@ func framingRules(c *Ctx, rule string) {
 		}
 		c.Floor(rule, nW, 2, "Write calls in "+pkg+".write")
 	}
-	if len(bounds) == 2 {
-		c.Check(bounds[shimPkg] == bounds[yubiPkg], rule, "read|both copies use the same bound", "-", "equal constants", "the two framed readers disagree on the maximum frame size")
+	// the sibling copy's constant (the client side of the same wire) agrees
+	if len(pkgs) == 1 {
+		other := yubiPkg
+		if pkgs[0] == yubiPkg {
+			other = shimPkg
+		}
+		a, b := w.ByPath[RepoMod+"/"+pkgs[0]], w.ByPath[RepoMod+"/"+other]
+		if a != nil && b != nil {
+			ca, _ := a.Types.Scope().Lookup("maxAgentResponseBytes").(*types.Const)
+			cb, _ := b.Types.Scope().Lookup("maxAgentResponseBytes").(*types.Const)
+			if ca != nil && cb != nil {
+				c.Check(ca.Val().ExactString() == cb.Val().ExactString(), rule, "read|both copies of the framing use the same bound", "-", "equal constants", "the two framed readers disagree on the maximum frame size: "+ca.Val().ExactString()+" vs "+cb.Val().ExactString())
+			}
+		}
 	}
 }
 
@@ -428,6 +485,14 @@ func c10Errors(c *Ctx, m *shimModel) {
 						if cc, ok := ins.(*ssa.Call); ok && strings.HasSuffix(calleeName(cc), "multierr.Append") {
 							acc = true
 						}
+					}
+				}
+				if !acc {
+					// cleanup on a path that already carries a non-nil error, which is what gets returned
+					onErrPath := f.Any(call.Block(), func(l Lit) bool { _, isNil, ok := nilTest(l); return ok && !isNil && isErrorType(lhsType(l)) })
+					if onErrPath && (strings.HasSuffix(interesting, ".Close") || strings.HasSuffix(interesting, ".close")) {
+						c.Ok("R5.errors", key+" cleanup on an error path", w.Pos(call.Pos()), "Close() while another error is being returned")
+						continue
 					}
 				}
 				c.Check(acc, "R5.errors", key+" error examined", w.Pos(call.Pos()), "accumulated with multierr.Append (returned when non-nil)", "the error of "+interesting+" is dropped")
@@ -495,10 +560,26 @@ func c10Deletions(c *Ctx, m *shimModel) {
 		case "write":
 			n++
 			ok := a.Fn == m.Methods["RemoveAll"] || a.Fn == ctor
+			if !ok {
+				// a helper whose only callers are RemoveAll and the constructor
+				n := 0
+				ok = true
+				for _, fn := range w.RepoFuncs() {
+					for _, call := range callsIn(fn) {
+						if call.Common().StaticCallee() == a.Fn {
+							n++
+							if fn != m.Methods["RemoveAll"] && fn != ctor {
+								ok = false
+							}
+						}
+					}
+				}
+				ok = ok && n > 0
+			}
 			c.Check(ok, "R6.deletions", "table replaced in "+shortFn(a.Fn), w.Pos(a.Instr.Pos()), "RemoveAll / constructor", "the in-memory certificate table is replaced outside RemoveAll and the constructor")
 		}
 	}
-	c.Floor("R6.deletions", n, 3, "deletion / replacement sites of the table")
+	c.Floor("R6.deletions", n, 2, "deletion / replacement sites of the table")
 	if remove != nil {
 		// static callers of the removal helper
 		for _, fn := range w.RepoFuncs() {
